@@ -702,6 +702,10 @@ class ZoneAnalysis:
                     continue
                 s = Site(zf.body.path, bi, 'callee', '%s<-%s' % (cpath.split('::')[-1], cs.key()), need, t['line'], t.get('span'))
                 s.origin = cs
+                # the closure body runs only if the iteration yields an element: every iterated container is non-empty then
+                if (t.get('callee') or '').startswith('std::iter::Iterator::') and t['args']:
+                    comps = zf.iter_components(t['args'][0]) or []
+                    s.extra = [((None, 1), ln) for ln in (zf.len_of_desc(c) for c in comps if c is not None) if ln is not None]
                 if any(x.kind == s.kind and x.desc == s.desc for x in zf.sites):
                     continue
                 zf.sites.append(s)
@@ -797,11 +801,12 @@ class ZoneAnalysis:
                 s.status = 'safe:' + why
                 return
         if s.need is not None:
-            if all(zf.prove_le(t1, t2, b) for (t1, t2) in s.need):
+            extra = getattr(s, 'extra', ())
+            if all(zf.prove_le(t1, t2, b, extra=extra) for (t1, t2) in s.need):
                 s.status = 'safe:dbm'
                 return
             # can it be a precondition? every term in parameter symbols, after using the facts to rewrite nothing
-            unproved = [(t1, t2) for (t1, t2) in s.need if not zf.prove_le(t1, t2, b)]
+            unproved = [(t1, t2) for (t1, t2) in s.need if not zf.prove_le(t1, t2, b, extra=extra)]
             if all(self._param_term_ok(zf, t1) and self._param_term_ok(zf, t2) for (t1, t2) in unproved) and not zf.body.kind == 'Closure':
                 s.status = 'pre'
                 s.pre = unproved
